@@ -53,6 +53,10 @@ class Matcher(object):
         self.active = [e for e in entries()
                        if e.get('property') == prop and
                        e.get('status') == 'known']
+        if os.environ.get('VF_NO_KNOWN'):
+            # development aid: report known findings as violations (to
+            # obtain a fresh shrunk reproducer); never set by the manifest
+            self.active = []
 
     def match(self, spec, failure):
         for e in self.active:
